@@ -3,8 +3,8 @@ package main
 // C01 GenBank parsing returns exactly what a well-formed record states.
 
 import (
-	"go/types"
 	"fmt"
+	"go/types"
 	"regexp"
 	"sort"
 	"strings"
